@@ -172,6 +172,8 @@ func (w *World) resolveType(t *SType, from string) (types.Type, error) {
 			return nil, err
 		}
 		return types.NewSlice(e), nil
+	case "emptystruct":
+		return types.NewStruct(nil, nil), nil
 	case "func":
 		return types.NewSignatureType(nil, nil, nil, nil, nil, false), nil
 	case "chan":
